@@ -17,7 +17,8 @@ tuples over primitives only (their values are passed through unchanged), literal
 `Literal` does not cover enum members), set elements / mapping keys with hashable-leaf encodings. -/
 def Ty.supB : Ty → Bool
   | .any => false
-  | .lit vs => vs.all Obj.isLeaf
+  -- literals of leaf values; literals containing enum members (scope condition: `litOK`, part of `Ty.unionsOK`)
+  | .lit vs => litHasEnum vs || vs.all Obj.isLeaf
   | .coll k t => t.supB && (!k.structTo.isSet || t.hashPrim)
   | .tupleHet ts => ts.all Ty.isPrimLeaf
   | .map _ kt vt => kt.hashPrim && kt.supB && vt.supB
@@ -137,8 +138,9 @@ theorem supGL_of_prim (td : Bool) : ∀ (ts : List Ty), ts.all Ty.isPrimLeaf = t
 
 theorem supB_supG (td : Bool) : ∀ (t : Ty), t.supB = true → t.supG td = true
   | .any, h => by simp [Ty.supB] at h
-  | .int, _ | .float, _ | .str, _ | .bytes, _ | .bool, _ | .enum _, _ | .lit _, _ | .cls _, _ | .union _ _, _
+  | .int, _ | .float, _ | .str, _ | .bytes, _ | .bool, _ | .enum _, _ | .cls _, _ | .union _ _, _
   | .nt _, _ => by simp [Ty.supG]
+  | .lit vs, _ => by simp [Ty.supG]
   | .coll k t, h => by
       simp only [Ty.supB, Bool.and_eq_true] at h
       simp only [Ty.supG, Bool.and_eq_true]
@@ -221,9 +223,12 @@ theorem un_eq_unAny (hg : cu.gen = false) :
       obtain ⟨m, rfl, _⟩ := conf_enum_inv w hc
       simp [un, unAny]
   | .lit vs, x, hs, _, hc => by
-      have hl : x.isLeaf = true := lit_leaf (by simpa [Ty.supB] using hs) (by simpa [conf] using hc)
-      rw [unAny_leaf w cu hl]
-      cases x <;> simp_all [un, Obj.isLeaf]
+      cases he : litHasEnum vs with
+      | true => rw [un]; simp [he]
+      | false =>
+        have hvs : vs.all Obj.isLeaf = true := by simpa [Ty.supB, he] using hs
+        have hl : x.isLeaf = true := lit_leaf hvs (litConf_memPy (by simpa [conf] using hc))
+        rw [unAny_leaf w cu hl, un_lit_simple w cu x he]
   | .coll k t, x, _, _, hc => by
       cases x <;> simp [conf] at hc
       rw [un, unAny]; simp [hg]
@@ -260,51 +265,62 @@ theorem un_eq_unAny (hg : cu.gen = false) :
       rw [un, unAny, ← hc.1.1.1]; simp [hg, hc.1.1.2]
 
 /-- a non-`None` value is never unstructured to `None` (so `Optional` round-trips) -/
-theorem unAny_ne_none (hwe : w.WFE) :
-    ∀ (t : Ty) (x : Obj), t.supB = true → conf w t x = true → x ≠ .none → unAny w cu x ≠ .none
-  | .any, _, hs, _, _ => by simp [Ty.supB] at hs
-  | .int, x, _, hc, _ => by cases x <;> simp_all [conf, unAny]
-  | .float, x, _, hc, _ => by cases x <;> simp_all [conf, unAny]
-  | .str, x, _, hc, _ => by cases x <;> simp_all [conf, unAny]
-  | .bytes, x, _, hc, _ => by cases x <;> simp_all [conf, unAny]
-  | .bool, x, _, hc, _ => by cases x <;> simp_all [conf, unAny]
-  | .enum e, x, _, hc, _ => by
+theorem unAny_ne_none (tup : Bool) (hwe : w.WFE) :
+    ∀ (t : Ty) (x : Obj), t.supB = true → t.unionsOK w tup = true → conf w t x = true → x ≠ .none →
+      unAny w cu x ≠ .none
+  | .any, _, hs, _, _, _ => by simp [Ty.supB] at hs
+  | .int, x, _, _, hc, _ => by cases x <;> simp_all [conf, unAny]
+  | .float, x, _, _, hc, _ => by cases x <;> simp_all [conf, unAny]
+  | .str, x, _, _, hc, _ => by cases x <;> simp_all [conf, unAny]
+  | .bytes, x, _, _, hc, _ => by cases x <;> simp_all [conf, unAny]
+  | .bool, x, _, _, hc, _ => by cases x <;> simp_all [conf, unAny]
+  | .enum e, x, _, _, hc, _ => by
       obtain ⟨m, rfl, hm⟩ := conf_enum_inv w hc
       simp only [unAny, enumValue]
       have : (w.members e)[m]? = some ((w.members e)[m]'hm) := by simp [hm]
       rw [this]
       exact (hwe.enumLeaf e _ (List.getElem_mem hm)).2
-  | .lit vs, x, hs, hc, hx => by
-      rw [unAny_leaf w cu (lit_leaf (by simpa [Ty.supB] using hs) (by simpa [conf] using hc))]
-      exact hx
-  | .coll k t, x, _, hc, _ => by
+  | .lit vs, x, hs, hu, hc, hx => by
+      cases he : litHasEnum vs with
+      | false =>
+        have hvs : vs.all Obj.isLeaf = true := by simpa [Ty.supB, he] using hs
+        rw [unAny_leaf w cu (lit_leaf hvs (litConf_memPy (by simpa [conf] using hc)))]
+        exact hx
+      | true =>
+        have ha := (litOK_arg w he (by simpa [Ty.unionsOK] using hu) (by simpa [conf] using hc)).1
+        have h1 := un_ne_none w { cu with gen := true } false tup rfl hwe (Ty.lit vs) x (by simp [Ty.supG]) hu hc hx
+        rw [un_lit_key w { cu with gen := true } he ha] at h1
+        have h2 : unAny w cu x = litKey w x := by
+          cases x <;> simp_all [litArgOK, Obj.isLeaf, unAny, litKey]
+        rw [h2]; exact h1
+  | .coll k t, x, _, _, hc, _ => by
       cases x <;> simp [conf] at hc
       rw [unAny]; simp [mkColl]
-  | .tupleHet ts, x, _, hc, _ => by
+  | .tupleHet ts, x, _, _, hc, _ => by
       cases x with
       | coll ck xs => rw [unAny]; simp [mkColl]
       | _ => simp [conf] at hc
-  | .map _ kt vt, x, _, hc, _ => by
+  | .map _ kt vt, x, _, _, hc, _ => by
       cases x <;> simp [conf] at hc
       rw [unAny]; simp
-  | .opt t, x, hs, hc, hx => by
+  | .opt t, x, hs, hu, hc, hx => by
       rw [conf_opt_some w hx] at hc
-      exact unAny_ne_none hwe t x (by simpa [Ty.supB] using hs) hc hx
-  | .wrap k t, x, hs, hc, hx => by
+      exact unAny_ne_none tup hwe t x (by simpa [Ty.supB] using hs) (by simpa [Ty.unionsOK] using hu) hc hx
+  | .wrap k t, x, hs, hu, hc, hx => by
       simp only [Ty.supB, Bool.or_eq_true, Bool.and_eq_true] at hs
       have hc' : conf w t x = true := by simpa [conf] using hc
       rcases hs with ⟨_, hs'⟩ | ⟨_, hp⟩
-      · exact unAny_ne_none hwe t x hs' hc' hx
+      · exact unAny_ne_none tup hwe t x hs' (by simpa [Ty.unionsOK] using hu) hc' hx
       · rw [unAny_leaf w cu (conf_prim_leaf w hp hc')]; exact hx
-  | .cls c, x, _, hc, _ => by
+  | .cls c, x, _, _, hc, _ => by
       cases x <;> simp [conf] at hc
       simp only [unAny]; split <;> (try split) <;> simp
-  | .td _, _, hs, _, _ => by simp [Ty.supB] at hs
-  | .union _ _, x, _, hc, hx => by
+  | .td _, _, hs, _, _, _ => by simp [Ty.supB] at hs
+  | .union _ _, x, _, _, hc, hx => by
       cases x <;> simp [conf] at hc
       · exact absurd rfl hx
       · simp only [unAny]; split <;> (try split) <;> simp
-  | .nt _, x, _, hc, _ => by
+  | .nt _, x, _, _, hc, _ => by
       cases x <;> simp [conf] at hc
       simp only [unAny]; split <;> (try split) <;> simp
 
@@ -319,10 +335,11 @@ theorem unAny_eq_un_hp (cg : Cfg) (hg : cg.gen = true) :
   | .enum e, a, _, _, hc => by
       obtain ⟨m, rfl, _⟩ := conf_enum_inv w hc
       simp [un, unAny]
-  | .lit vs, a, _, hs, hc => by
-      have hl : a.isLeaf = true := lit_leaf (by simpa [Ty.supB] using hs) (by simpa [conf] using hc)
-      rw [unAny_leaf w cu hl]
-      cases a <;> simp_all [un, Obj.isLeaf]
+  | .lit vs, a, hp, hs, hc => by
+      have he : litHasEnum vs = false := by simpa [Ty.hashPrim] using hp
+      have hvs : vs.all Obj.isLeaf = true := by simpa [Ty.supB, he] using hs
+      have hl : a.isLeaf = true := lit_leaf hvs (litConf_memPy (by simpa [conf] using hc))
+      rw [unAny_leaf w cu hl, un_lit_simple w cg a he]
   | .opt t, a, hp, hs, hc => by
       by_cases ha : a = .none
       · subst ha; simp [un, unAny]
@@ -509,8 +526,20 @@ theorem roundtrip_any_aux (hg : cu.gen = false) (hstrat : cs.tupleStrat = cu.tup
         rfl
       | lit vs =>
         simp only [conf] at hc
-        rw [unAny_leaf w cu (lit_leaf (by simpa [Ty.supB] using hs) hc)]
-        simp [stF, hc]
+        cases he : litHasEnum vs with
+        | false =>
+          have hvs : vs.all Obj.isLeaf = true := by simpa [Ty.supB, he] using hs
+          rw [unAny_leaf w cu (lit_leaf hvs (litConf_memPy hc))]
+          simp only [stF]
+          rw [litStruct_simple w x he]
+          simp [litConf_memPy hc]
+        | true =>
+          obtain ⟨ha, hfind⟩ := litOK_arg w he (by simpa [Ty.unionsOK] using hu) hc
+          have h2 : unAny w cu x = litKey w x := by
+            cases x <;> simp_all [litArgOK, Obj.isLeaf, unAny, litKey]
+          rw [h2]
+          simp only [stF, litStruct, he, if_true]
+          exact hfind
       | coll k t' =>
         simp only [Ty.supB, Bool.and_eq_true, Bool.or_eq_true, Bool.not_eq_true'] at hs
         obtain ⟨hs', hset⟩ := hs
@@ -584,7 +613,7 @@ theorem roundtrip_any_aux (hg : cu.gen = false) (hstrat : cs.tupleStrat = cu.tup
         by_cases hxn : x = .none
         · subst hxn; simp [unAny, stF]
         · rw [conf_opt_some w hxn] at hc
-          have hne := unAny_ne_none w cu hwe t' x hs' hc hxn
+          have hne := unAny_ne_none w cu cs.tupleStrat hwe t' x hs' (by simpa [Ty.unionsOK] using hu) hc hxn
           have : stF w cs (.opt t') (unAny w cu x) = stF w cs t' (unAny w cu x) := by
             cases hu : unAny w cu x <;> simp_all [stF]
           rw [this]
